@@ -1,17 +1,18 @@
 #!/bin/bash
 # usage: tools/collect_seed.sh <ID> <A|B> "<demo cmd>" "<what it needs to manifest>"
-id="$1"; ab="$2"; demo="$3"; needs="$4"
-src=/tmp/seed/$id/seed_out/$ab; dst=/verif/seeded/$id-$ab
-grep -q "RESULT $id-$ab CONFIRMED" /tmp/seed/$id/verify_$ab.log || { echo "$id-$ab not confirmed"; exit 1; }
+id="$1"; ab="$2"; demo="$3"; needs="$4"; as="${5:-$ab}"
+base=${SEED_BASE:-/tmp/seed}
+src=$base/$id/seed_out/$ab; dst=/verif/seeded/$id-$as
+grep -q "RESULT $id-$ab CONFIRMED" $base/$id/verify_$ab.log || { echo "$id-$ab not confirmed"; exit 1; }
 mkdir -p "$dst" && cp -r "$src"/* "$dst"/
-python3 - "$id" "$ab" "$demo" "$needs" "$dst" <<'PY'
+python3 - "$id" "$ab" "$demo" "$needs" "$dst" "$as" "$base" <<'PY'
 import json,sys
-id,ab,demo,needs,dst=sys.argv[1:6]
-log=open(f"/tmp/seed/{id}/verify_{ab}.log").read().strip().splitlines()
-meta={"id":f"{id}-{ab}","breaks_property":id,"patch":"patch.diff","demonstration":"demo.diff (apply on top of the tree, then run the demo command)",
+id,ab,demo,needs,dst,as_,base=sys.argv[1:8]
+log=open(f"{base}/{id}/verify_{ab}.log").read().strip().splitlines()
+meta={"id":f"{id}-{as_}","breaks_property":id,"patch":"patch.diff","demonstration":"demo.diff (apply on top of the tree, then run the demo command)",
  "demo_cmd":demo,"needs_to_manifest":needs,
  "confirmed_by":"tools/verify_seed.sh in a scratch worktree: patch applies and builds; cargo test --workspace --no-fail-fast --offline passes (66 tests + 84 doctests); demo fails with the patch and passes without it",
  "verify_log_tail":log[-3:],"origin":"independent sub-agent given only the property text and a scratch worktree"}
 json.dump(meta,open(dst+"/meta.json","w"),indent=1)
 PY
-echo collected $id-$ab
+echo collected $id-$as
